@@ -785,6 +785,25 @@ func (e *Env) callExpr(ex *ast.CallExpr, hint types.Type) Val {
 			n := *e
 			n.st = e.x.loopSnap[e.loop.header]
 			return n.eval(ex.Args[0], hint)
+		case "outer":
+			// outer(e): e at the head of the current iteration of the enclosing loop
+			// (for the clauses of an inner loop)
+			if e.loop == nil || e.x == nil {
+				e.fail("outer() outside a loop clause")
+			}
+			var enc *loopInfo
+			for _, lj := range e.x.loopList {
+				if lj != e.loop && lj.body[e.loop.header] && (enc == nil || len(lj.body) < len(enc.body)) {
+					enc = lj
+				}
+			}
+			if enc == nil || e.x.loopSnap[enc.header] == nil {
+				e.fail("outer(): no enclosing loop")
+			}
+			n := *e
+			n.st = e.x.loopSnap[enc.header]
+			n.loop = enc
+			return n.eval(ex.Args[0], hint)
 		case "old":
 			n := *e
 			if n.cur == nil {
@@ -835,6 +854,38 @@ func (e *Env) callExpr(ex *ast.CallExpr, hint types.Type) Val {
 				return Val{T: intT, S: c.fromIdx(intT, sRef(a.S))}
 			}
 			return Val{T: intT, S: c.fromIdx(intT, a.S)}
+		case "onlyrefs":
+			// onlyrefs(a, b, ...): among the arrays that existed in the old state, only the
+			// backing arrays of the listed slices (all of one element type) may differ from
+			// the old state; onlyrefs(T(nil)...) is not needed: with one argument whose
+			// reference is 0 (nil slice) nothing that existed may differ.
+			if len(ex.Args) == 0 {
+				e.fail("onlyrefs needs at least one slice argument")
+			}
+			var refs []string
+			var elem types.Type
+			for _, a := range ex.Args {
+				v := e.eval(a, nil)
+				sl, ok := v.T.Underlying().(*types.Slice)
+				if !ok {
+					e.fail("onlyrefs: %s is not a slice", v.T)
+				}
+				elem = sl.Elem()
+				refs = append(refs, sRef(v.S))
+			}
+			r, _ := c.elemRegion(elem)
+			bn := c.fresh("q_r")
+			var ne []string
+			ne = append(ne, sx("<=", "0", bn), sx("<=", bn, c.alloc(e.old)))
+			for _, rf := range refs {
+				ne = append(ne, not(eq(bn, rf)))
+			}
+			now, was := sx("select", c.region(e.st, r), bn), sx("select", c.region(e.old, r), bn)
+			return Val{T: boolT, S: fmt.Sprintf("(forall ((%s Int)) (! (=> %s (= %s %s)) :pattern (%s)))", bn, and(ne...), now, was, now)}
+		case "sameslice": // sameslice(a, b): the same slice header (array, offset, length, capacity)
+			a := e.eval(ex.Args[0], nil)
+			b := e.eval(ex.Args[1], nil)
+			return Val{T: boolT, S: eq(a.S, b.S)}
 		case "off":
 			a := e.eval(ex.Args[0], nil)
 			return Val{T: intT, S: c.fromIdx(intT, sOff(a.S))}
@@ -892,7 +943,6 @@ func (e *Env) callExpr(ex *ast.CallExpr, hint types.Type) Val {
 					}
 				}
 				n.useCells = false
-				n.loop = nil
 				n.oldVars = nil
 				return n.eval(body, hint)
 			}
@@ -1065,12 +1115,39 @@ func selectPatterns(body string, bvs []string) string {
 	}
 	var chosen []string
 	covered := map[string]bool{}
+	var apps []string
+	collectApps(body, "(rec_", &apps)
 	for _, v := range bvs {
 		if covered[v] {
 			continue
 		}
 		found := ""
+		// applications of named specification functions make the cleanest triggers
+		for pass := 0; pass < 2 && found == ""; pass++ {
+			for _, t := range apps {
+				if !mentions(t, v) || strings.Contains(t, "(ite ") || strings.Contains(t, "(* ") {
+					continue
+				}
+				if pass == 0 {
+					// prefer the variable as a direct argument
+					direct := false
+					for _, a := range splitSexp(t[1 : len(t)-1])[1:] {
+						if a == v {
+							direct = true
+						}
+					}
+					if !direct {
+						continue
+					}
+				}
+				found = t
+				break
+			}
+		}
 		for _, t := range terms {
+			if found != "" {
+				break
+			}
 			parts := splitSexp(t[len("(select ") : len(t)-1])
 			if len(parts) != 2 {
 				continue
@@ -1106,6 +1183,19 @@ func selectPatterns(body string, bvs []string) string {
 		}
 	}
 	return strings.Join(chosen, " ")
+}
+
+// collectApps collects the applications whose text starts with prefix.
+func collectApps(t string, prefix string, out *[]string) {
+	if !strings.HasPrefix(t, "(") {
+		return
+	}
+	if strings.HasPrefix(t, prefix) {
+		*out = append(*out, t)
+	}
+	for _, p := range splitSexp(t[1 : len(t)-1]) {
+		collectApps(p, prefix, out)
+	}
 }
 
 func collectSelects(t string, out *[]string) {
